@@ -277,7 +277,7 @@ def schedule_level(ctx):
     per = 8
     for i in range(0, len(good), per):
         g = good[i:i + per]
-        t = mboxx.MODEL_HDR + "From Asimap Require Import Model.Linear.\n"
+        t = mboxx.MODEL_HDR + "From Asimap Require Import Model.Linear Model.PhasesCmp.\n"
         for j, r in enumerate(g):
             ps, pn, pd = r["pack"]
             cm = clist([atoms_term(i, op, tg, mk, dt) for i, (op, tg, mk, dt) in
@@ -285,12 +285,20 @@ def schedule_level(ctx):
             t += (f"Definition lin_{j} := linearizable_steps (init_world {ps} {pn} {pd}) {clist([mboxx.c_op(o) for o in r['prefix']])} "
                   f"{cm} {digest_term(r['final'])}.\n")
         t += "Eval vm_compute in " + clist([f"lin_{j}" for j in range(len(g))]) + ".\n"
+        # the two-step model of FETCH/STORE/SEARCH against the atomic one, on every world of these histories
+        t += "Eval vm_compute in " + clist([f"first_disagreement (init_world {r['pack'][0]} {r['pack'][1]} {r['pack'][2]}) "
+                                            f"{clist([mboxx.c_op(o) for o in r['prefix']])} 0" for r in g]) + ".\n"
         texts.append(t)
         groups.append(g)
     outs = ctx.coq.eval_many("c10l", texts, timeout=1200)
     nonlin = 0
     for g, out in zip(groups, outs):
-        vals = re.findall(r"true|false", core.parse_coq_values(out)[0])
+        pv = core.parse_coq_values(out)
+        for r, d in zip(g, re.findall(r"-?\d+", pv[1])):
+            if int(d) >= 0:
+                ctx.proof_broken.append({"what": "Model/Phases.v (arrive; execute) and Model/Mbox.v step disagree on a reachable world",
+                                         "case_seed": r["seed"], "op_index": int(d), "prefix": [repr(o) for o in r["prefix"]]})
+        vals = re.findall(r"true|false", pv[0])
         for r, v in zip(g, vals):
             if v == "false":
                 nonlin += 1
@@ -352,7 +360,7 @@ def run(ctx):
                             "CHECK, UID and non-UID) issued together under a seeded perturbation of all I/O completions; "
                             "non-trivial = the batch mixes command kinds or contains an EXPUNGE")
     ok = ctx.prove("Properties/C10.v")
-    ctx.coq.build(["Model/Linear.vo"])
+    ctx.coq.build(["Model/Linear.vo", "Model/PhasesCmp.vo"])
     ctx.coq.unlock()
     conflict_level(ctx)
     schedule_level(ctx)
